@@ -26,10 +26,11 @@ Completed(ev, p, dir) == {ev[i].name : i \in {j \in 1..p : ev[j].dir = dir /\ ev
 \* (a listed file may live in a sub-directory or, before the fix, outside: what matters is that it left)
 Gone(ev, p, dir) == {ev[i].name : i \in {j \in 1..p : ev[j].dir # "dst" /\ ev[j].op \in {"delete", "moved_from"}}}
 
-\* the control file appears in the destination (create / moved_to) only after every listed file is complete there
+\* the control file appears in the destination (create / moved_to - or, when an older one already lies there, the
+\* first write into it) only after every listed file is complete there
 ControlLastOnTrace(rec) ==
     \A p \in 1..Len(rec.events) :
-        (rec.events[p].dir = "dst" /\ rec.events[p].name = rec.ctl /\ rec.events[p].op \in {"create", "moved_to"})
+        (rec.events[p].dir = "dst" /\ rec.events[p].name = rec.ctl /\ rec.events[p].op \in {"create", "moved_to", "modify"})
             => BaseSet(rec) \subseteq Completed(rec.events, p - 1, "dst")
 \* the control file leaves the source directory (delete / moved_from) only after every listed file has left it
 RemoveLastOnTrace(rec) ==
